@@ -5,13 +5,18 @@
 From TX Require Import Base.Val Model.Domain.
 Local Open Scope N_scope.
 
+(* client ids are integers; they travel as naturals: 2z for z >= 0, -2z-1 for z < 0 *)
+Definition vz (v : tval) : Z :=
+  let n := vn v in if N.even n then Z.of_N (N.div2 n) else Z.opp (Z.of_N (N.div2 (n + 1))).
+Definition enc_z (z : Z) : N := if Z.ltb z 0 then Z.to_N (Z.opp z * 2 - 1) else Z.to_N (z * 2).
+
 (* case = [ [dfix; atomic_incr; now; cfix] ; threads ; sched ; reg ; cloud ; obs ]
    thread = [ client ; ops ; faults ; results ]
-   op = [0; sub; base; tgt] | [1; is_mine; k_or_id] | [2; k; st; exp; tgt] | [3; host; now] | [4]
+   op = [0; sub; base; tgt] | [1; is_mine; k_or_id] | [2; k; st; exp; tgt] | [3; host; now] | [4] | [5; now] (cleanup)
    result = [kind; a; b; c; d]   0 created id | 1 deleted | 2 updated | 3 routed from_repo id client tgt | 4 reset | 5 error code
    legacy entry = [name; id; client; tgt; active; revoked; exp]
    obs = [ idx [[name; id]..] ; recs [[id; name; client; tgt; st; exp]..] ; lists [[client; [ids]]..] ; guards [ids] ; next ; finals [[name; result]..] ;
-           counter_has_deadline ] *)
+           counter_has_deadline ; global_list [ids] ] *)
 
 Definition dec_status (v : tval) : status :=
   match vn v with 0 => StActive | 1 => StInactive | _ => StExpired end.
@@ -23,13 +28,14 @@ Definition dec_op (v : tval) : op :=
   | 1 => ODelete (if vbool (vnth 1 v) then Mine (vnat (vnth 2 v)) else Abs (vn (vnth 2 v)))
   | 2 => OUpdate (vnat (vnth 1 v)) (dec_status (vnth 2 v)) (vn (vnth 3 v)) (vn (vnth 4 v))
   | 3 => OLookup (vb (vnth 1 v)) (vn (vnth 2 v))
+  | 5 => OCleanup (vn (vnth 1 v))
   | _ => OResetCounter
   end.
 Definition dec_thread (v : tval) : thr :=
-  init_thr (vn (vnth 0 v)) (map dec_op (vl (vnth 1 v))) (map vbool (vl (vnth 2 v))).
+  init_thr (vz (vnth 0 v)) (map dec_op (vl (vnth 1 v))) (map vbool (vl (vnth 2 v))).
 
 Definition dec_legacy (v : tval) : name * pmap :=
-  (vb (vnth 0 v), {| p_id := vn (vnth 1 v); p_client := vn (vnth 2 v); p_target := vn (vnth 3 v);
+  (vb (vnth 0 v), {| p_id := vn (vnth 1 v); p_client := vz (vnth 2 v); p_target := vn (vnth 3 v);
                      p_active := vbool (vnth 4 v); p_revoked := vbool (vnth 5 v); p_exp := vn (vnth 6 v) |}).
 Definition tbl (l : list (name * pmap)) (n : name) : option pmap :=
   match find (fun e => name_eqb (fst e) n) l with Some e => Some (snd e) | None => None end.
@@ -42,8 +48,9 @@ Definition res_matches (r : res) (v : tval) : bool :=
   | RUpdated => N.eqb k 2
   | RRouted src _ i c t =>
       N.eqb k 3 && Bool.eqb (N.eqb src 1) (vbool (vnth 1 v)) && N.eqb (vn (vnth 2 v)) i
-      && N.eqb (vn (vnth 3 v)) c && N.eqb (vn (vnth 4 v)) t
+      && Z.eqb (vz (vnth 3 v)) c && N.eqb (vn (vnth 4 v)) t
   | RReset => N.eqb k 4
+  | RCleaned n => N.eqb k 6 && N.eqb (vn (vnth 1 v)) n
   | RErr code => N.eqb k 5 && N.eqb (vn (vnth 1 v)) code
   end.
 Definition enc_res (r : res) : tval :=
@@ -51,8 +58,9 @@ Definition enc_res (r : res) : tval :=
   | RCreated i => VL [VN 0; VN i]
   | RDeleted => VL [VN 1]
   | RUpdated => VL [VN 2]
-  | RRouted src _ i c t => VL [VN 3; VN (if N.eqb src 1 then 1 else 0); VN i; VN c; VN t]
+  | RRouted src _ i c t => VL [VN 3; VN (if N.eqb src 1 then 1 else 0); VN i; VN (enc_z c); VN t]
   | RReset => VL [VN 4]
+  | RCleaned n => VL [VN 6; VN n]
   | RErr code => VL [VN 5; VN code]
   end.
 
@@ -72,7 +80,7 @@ Definition rec_matches (m : option mrec) (o : option tval) : bool :=
   match m, o with
   | None, None => true
   | Some r, Some v =>
-      name_eqb (r_name r) (vb (vnth 1 v)) && N.eqb (r_client r) (vn (vnth 2 v)) && N.eqb (r_target r) (vn (vnth 3 v))
+      name_eqb (r_name r) (vb (vnth 1 v)) && Z.eqb (r_client r) (vz (vnth 2 v)) && N.eqb (r_target r) (vn (vnth 3 v))
       && N.eqb (enc_status (r_status r)) (vn (vnth 4 v)) && N.eqb (r_exp r) (vn (vnth 5 v))
   | _, _ => false
   end.
@@ -92,7 +100,7 @@ Definition check (v : tval) : bool :=
   let names := flat_map (fun t => flat_map op_names (ops t)) (map dec_thread (vl (vnth 1 v)))
                ++ map (fun e => vb (vnth 0 e)) o_idx in
   let ids := map N.of_nat (seq 0 (N.to_nat (next s) + N.to_nat o_next + 3)) ++ map (fun e => vn (vnth 0 e)) o_recs ++ o_guards in
-  let clients := map (fun t => cl t) ts ++ map (fun e => vn (vnth 0 e)) o_lists in
+  let clients := map (fun t => cl t) ts ++ map (fun e => vz (vnth 0 e)) o_lists ++ map (fun e => vz (vnth 2 e)) o_recs in
   let reg := tbl (map dec_legacy (vl (vnth 3 v))) in
   let cloud := tbl (map dec_legacy (vl (vnth 4 v))) in
   (* per-caller results, and every caller has finished its script in the model as well *)
@@ -103,10 +111,11 @@ Definition check (v : tval) : bool :=
                 (match find (fun e => name_eqb (vb (vnth 0 e)) n) o_idx with Some e => Some (vn (vnth 1 e)) | None => None end)) names
   && forallb (fun i => rec_matches (recs s i) (find (fun e => N.eqb (vn (vnth 0 e)) i) o_recs)) ids
   && forallb (fun c => ids_eqb (lists s c)
-                (match find (fun e => N.eqb (vn (vnth 0 e)) c) o_lists with Some e => map vn (vl (vnth 1 e)) | None => [] end)) clients
+                (match find (fun e => Z.eqb (vz (vnth 0 e)) c) o_lists with Some e => map vn (vl (vnth 1 e)) | None => [] end)) clients
   && forallb (fun i => Bool.eqb (rguard s i) (existsb (N.eqb i) o_guards)) ids
   && N.eqb (next s) o_next
   && Bool.eqb (cexists s && cttl s) (vbool (vnth 6 obs))
+  && ids_eqb (glist s) (map vn (vl (vnth 7 obs)))
   (* quiescent lookups *)
   && forallb (fun e => res_matches (lookup_now reg cloud s (vb (vnth 0 e)) (vn (vnth 2 fl))) (vnth 1 e))
              (vl (vnth 5 obs)).
